@@ -723,7 +723,7 @@ class W3PostingsWriter(base.PostingsWriter):
         # the posting file
         if not self.written() and len(self) < self._inlinelimit:
             terminfo.add_block(self)
-            terminfo.set_inline(self._ids, self._weights, self._values)
+            terminfo.set_inlined(self._ids, self._weights, self._values)
         else:
             # If there are leftover items in the current block, write them out
             if self._ids:
